@@ -302,7 +302,16 @@ def run_shard(spec, col):
     boot.init(lang)
     quick = col.tier == 'quick'
 
-    xleg = OtherProcess(lang, 8 if quick else 120)
+    xleg = OtherProcess(lang, 12 if quick else 120)
+
+    def hand_case(data):
+        # hand-shaped programs (vlib/handprog.py): nested functions, varargs of parameterized element type, generic calls
+        case = pg.hand_case(lang, draw=data.draw)
+        col.feature('programs_handmade')
+        judge_case(case, col, xleg if len(xleg.entries) < xleg.limit // 3 else None)
+    # (first: whatever these translations leave behind in the process is then part of every later save point, which
+    # the other-process leg reads back in a clean interpreter)
+    hyp.explore(st.data(), hand_case, 10 if quick else 300, col.shard_seed('hand'))
 
     def seed_case(x):
         seed, (sw, limits) = x
@@ -316,12 +325,6 @@ def run_shard(spec, col):
     hyp.explore(st.tuples(st.data(), pg.config_strategy(small=True)), tape_case, 16 if quick else 400,
                 col.shard_seed('tape'))
 
-    def hand_case(data):
-        # hand-shaped programs (vlib/handprog.py): nested functions, varargs of parameterized element type, generic calls
-        case = pg.hand_case(lang, draw=data.draw)
-        col.feature('programs_handmade')
-        judge_case(case, col, xleg)
-    hyp.explore(st.data(), hand_case, 10 if quick else 300, col.shard_seed('hand'))
     xleg.run(col)
 
 
